@@ -327,4 +327,47 @@ theorem authSplit_authority (sch a tail : Str) (ha : ∀ c ∈ a, authChar c = t
   rw [htw, hok]
   exact ⟨_, rfl, rfl⟩
 
+/-- a path that `urlsplit` keeps whole: empty, or `/` followed by text without `?`, `#`, TAB,
+CR, LF -/
+def PathOK (tail : Str) : Prop :=
+  tail = [] ∨ ∃ t, tail = '/' :: t ∧ '?' ∉ t ∧ '#' ∉ t ∧ ∀ c ∈ t, (!isUnsafeUrlChar c) = true
+
+theorem PathOK.tailOK {tail : Str} (h : PathOK tail) : TailOK tail := by
+  rcases h with rfl | ⟨t, rfl, _⟩
+  · exact Or.inl rfl
+  · exact Or.inr ⟨'/', t, rfl, by decide⟩
+
+/-- … and the path it reads is what follows the authority, when that holds neither `?` nor `#` -/
+theorem authSplit_authority_path (sch a tail : Str) (ha : ∀ c ∈ a, authChar c = true) (ht : PathOK tail) :
+    ∃ r, authSplit sch (dropUnsafe (a ++ tail)) = some r ∧ r.netloc = a ∧ r.path = tail := by
+  obtain ⟨hnd, hlb, hrb, hsafe⟩ := authChar_facts ha
+  obtain ⟨r, hr, hnl⟩ := authSplit_authority sch a tail ha ht.tailOK
+  refine ⟨r, hr, hnl, ?_⟩
+  have hda : dropUnsafe a = a := dropUnsafe_eq_self hsafe
+  have hdw : (dropUnsafe (a ++ tail)).dropWhile (fun c => !isNetlocDelim c) = tail ∧ '#' ∉ tail ∧ '?' ∉ tail := by
+    rw [dropUnsafe_append, hda]
+    rcases ht with rfl | ⟨t, rfl, hq, hf, hs⟩
+    · simp only [dropUnsafe, List.filter_nil, List.append_nil]
+      exact ⟨(takeWhile_all a hnd).2, by simp, by simp⟩
+    · have : dropUnsafe ('/' :: t) = '/' :: t := by
+        apply dropUnsafe_eq_self
+        intro c hc
+        rcases List.mem_cons.1 hc with rfl | hc
+        · decide
+        · exact hs c hc
+      rw [this]
+      refine ⟨(takeWhile_append_stop a '/' t hnd (by decide)).2, ?_, ?_⟩
+      · intro hm; rcases List.mem_cons.1 hm with e | hm
+        · exact absurd e (by decide)
+        · exact hf hm
+      · intro hm; rcases List.mem_cons.1 hm with e | hm
+        · exact absurd e (by decide)
+        · exact hq hm
+  unfold authSplit at hr
+  split at hr
+  · exact absurd hr (by simp)
+  · injection hr with hr
+    rw [← hr]
+    simp only [hdw.1, splitFirst_notMem_s20 _ _ hdw.2.1, splitFirst_notMem_s20 _ _ hdw.2.2]
+
 end Ural.Sites
